@@ -5,7 +5,8 @@ CONSTANTS
   ChkOutcomes <- OkPerm
   MaxCrashes = 1
   MaxRuns = 1
-  Tolerated <- KnownRecovery
+  Tolerated <- KnownRecoveryAny
+  FnOut = FALSE
   Gen = "off"
 INVARIANTS NoClauseViolated InvQuiescentAtRelease InvDurLagsMem
 CHECK_DEADLOCK TRUE
